@@ -67,6 +67,19 @@ def run_scenario(item):
         for st in item['steps']:
             c = client(st['c'])
             held = steer(st['s']) if item.get('steer', True) else []
+            if st['items'][0]['k'] == 'SP':
+                # PREPARE through the simple protocol: the pooler cleans the connection with DEALLOCATE ALL afterwards
+                rep = c.query('PREPARE adhoc_%s AS SELECT 1' % st['c'].lower())
+                time.sleep(0.02)
+                errs = [e.get('M', '') for e in rep.errors]
+                out['recs'].append({'ev': 'sqlprep', 'c': st['c'], 'ok': rep.end == 'Z' and not errs,
+                                    'errors': [x[:80] for x in errs], 'cache': cache})
+                if rep.end != 'Z':
+                    c.dead = True
+                    c.close()
+                for h in held:
+                    h.query('COMMIT')
+                continue
             msgs = []
             for it in st['items']:
                 if it['k'] == 'P':
@@ -151,6 +164,10 @@ def check_c08(prop, tier, seed):
         v.tool_error('Prepared asbuilt: expected BeliefSound / NoSpurious to fail')
     else:
         v.extra['model_negative_control'] = 'error_pops_one violates %s' % r2.invariant_violated
+    r3 = tlc.run_tlc('Prepared', 'MC_Prepared_dev_dealloc.cfg', workers=8)
+    v.add_mc('mc:dev_dealloc', r3)
+    if not r3.invariant_violated:
+        v.tool_error('Prepared dealloc_keeps_belief: expected BeliefSound / NoSpurious to fail')
     n = {'quick': 500, 'thorough': 8000}[tier]
     res = tlc.run_tlc('Gen_Prepared', 'Gen_Prepared.cfg', workers=1, simulate=n * 6, depth=6, seed=seed, timeout=1200)
     if res.rc != 0:
@@ -178,6 +195,14 @@ def check_c08(prop, tier, seed):
                     sc += 1
                 names.add((b['c'], it['n']))
         sc += len({b['c'] for b in s}) + len({b['s'] for b in s})
+        # a simple-protocol PREPARE (the pooler deallocates everything on that connection afterwards) between the Parse
+        # of a statement and a later Bind of it on the same connection
+        for i, b in enumerate(s):
+            if b['items'][0]['k'] == 'SP':
+                before = {(b0['c'], it['n']) for b0 in s[:i] if b0['s'] == b['s'] for it in b0['items']
+                          if it['k'] == 'P' and it.get('q') != 'bad'}
+                after = {(b1['c'], it['n']) for b1 in s[i + 1:] if b1['s'] == b['s'] for it in b1['items'] if it['k'] == 'BE'}
+                sc += 10 if (before & after) else (3 if (before and after) else 0)
         return sc
     uniq.sort(key=lambda s: -score(s))
     chosen = uniq[:n]
